@@ -37,8 +37,9 @@ def _path_text(segs):
 
 def _parse(case, obs):
     pl = _P.case_payload(case)
-    ops = pl[3][1:]
-    expect = pl[4][1:]
+    # (c17 ENV SCHEMA (ops..) (expect..)) / (c17x ENV STRUCTS XSCHEMA (ops..) (expect..))
+    ops = pl[-2][1:]
+    expect = pl[-1][1:]
     o = _P.sx_parse(obs) if obs.startswith("(") else obs
     return pl, ops, expect, o
 
@@ -127,7 +128,7 @@ def c17_stats(rows):
         except Exception:
             continue
         res = o[1:] if isinstance(o, list) and o and o[0] == "r" else []
-        schema_txt = _show(pl[2], 100000)
+        schema_txt = _show(pl[-3], 100000)
         for i, (op, exp) in enumerate(zip(ops, expect)):
             ob = res[i] if i < len(res) else "?"
             cls = ob[0] if isinstance(ob, list) and ob else ob
@@ -168,9 +169,12 @@ def register(props):
     props.FAMILY_STATS["c17"] = c17_stats
     props.DIRECT[("C17", "c17")] = c17_direct
     props.EXPLAIN[("C17", "c17")] = c17_explain
+    props.FAMILY_STATS["c17struct"] = c17_stats
+    props.DIRECT[("C17", "c17struct")] = c17_direct
+    props.EXPLAIN[("C17", "c17struct")] = c17_explain
     props.PROPS["C17"] = {
         "theory": "Properties/C17.v",
-        "families": ["c17"],
+        "families": ["c17", "c17struct"],
         "rule": "c17: generated nested schemas (objects / lists / maps / one-ofs / `any` leaves, through scopes and references, depth 1-3) "
                 "with an input built from the schema that Unserialize (raw form, every representation), Validate and Serialize "
                 "(native form, exactly typed or any-typed containers) accept - acceptance is part of the observation; then "
@@ -178,8 +182,17 @@ def register(props):
                 "(wrong type in several flavours, below min, above max, NaN, not in enum, pattern miss, list/map size, "
                 "extra key, non-string key, missing required, required_if, required_if_not, conflicts, one-of discriminator "
                 "missing/unknown/mistyped; inside the value of an `any` schema every element and map key replaced by nil, a "
-                "channel, an unsigned integer above MaxInt64) for Unserialize on the raw form and for Validate and Serialize on the native form; distinct = distinct (schema, operation, corrupted value); "
-                "non-trivial = the expected path has at least one segment",
+                "channel, an unsigned integer above MaxInt64) for Unserialize on the raw form and for Validate and Serialize on the native form; "
+                "35 % of the properties (60 % inside one-of members) carry display data (a named property's errors are re-wrapped on a "
+                "code path of their own); half of the one-property objects are written in the single-property shorthand (the value of "
+                "the property instead of a map) at any depth, in the raw form. "
+                "c17struct: the same machinery on STRUCT-MAPPED objects (NewStructMappedObjectSchema[T] and [*T] over the struct family "
+                "of xstruct_types.go - scalar, pointer, nested struct, pointer-to-struct, slices / maps of structs and of pointers, "
+                "embedded struct, `any` and map-based members, through scopes and references; every property id is a json tag that "
+                "differs from the Go field name): valid input and single faults generated on the map-based twin, the native values for "
+                "Validate / Serialize rebuilt as Go structs by reflection (faults with no struct representation are applied to the raw "
+                "form only), paths compared exactly with Schema/XOps.v and judged directly. "
+                "distinct = distinct (schema, operation, corrupted value); non-trivial = the expected path has at least one segment",
         "assumptions": ["exactly one fault per input (with several, the first error follows Go's map iteration order)",
                         "lenient readings: an undeclared / non-string key and a bad one-of discriminator are reported at the "
                         "enclosing object / one-of (the key is named in the message); {oneof[k]} marker segments are ignored",
@@ -199,7 +212,8 @@ def register(props):
                       "property by property, one-ofs without marker); C17_any_single_fault_path: inside the value of an `any` schema "
                       "('[i]' per list level, '{k}' for a key, '[k']' with the converted key for a value; every scalar failure is a "
                       "constraint error - after the fix of D53), a position of all three relations. Not proved, decided by the "
-                      "direct check on the implementation and the path-exact correspondence only: struct-mapped objects, `any` "
+                      "direct check on the implementation and the path-exact correspondence only: struct-mapped objects (family "
+                      "c17struct: paths compared exactly with the struct layer Schema/XOps.v, no path theorem over it), `any` "
                       "values below a one-of (its compatibility pre-check reads them by rules of its own).",
         "level_note": "Model = Schema/Ops.v with the segment syntax of schema/{list,map,object,oneof}.go, after the fixes for D34, D66, D67, D53; "
                       "tied to the code by the c17 family: implementation and extracted model are compared INCLUDING paths, and every "
